@@ -111,12 +111,13 @@ fn markdown_comments_parser() -> anyhow::Result<impl CommentsParser> {
             let comment = &source_code[node.byte_range()];
             let prefix_idx = comment.find("[//]:")?;
             let start_search = prefix_idx + 5;
+            // A reference definition without a title, or whose title is not closed, is not a
+            // comment.
             let open_idx = comment[start_search..]
                 .find(|c| ['(', '"', '\''].contains(&c))
-                .map(|i| i + start_search)
-                .expect("comment is expected to have a title delimiter");
+                .map(|i| i + start_search)?;
 
-            let open_char = comment.chars().nth(open_idx).unwrap();
+            let open_char = comment[open_idx..].chars().next()?;
             let close_char = match open_char {
                 '(' => ')',
                 '"' => '"',
@@ -124,9 +125,9 @@ fn markdown_comments_parser() -> anyhow::Result<impl CommentsParser> {
                 _ => unreachable!(),
             };
 
-            let close_idx = comment
+            let close_idx = comment[open_idx + 1..]
                 .rfind(close_char)
-                .expect("comment is expected to end with matching delimiter");
+                .map(|i| i + open_idx + 1)?;
 
             let mut result = String::with_capacity(comment.len());
             result.push_str(&comment[..prefix_idx]);
